@@ -14,8 +14,8 @@ CLAIMED = {
  "C02": ("who-may-write + expression-shape check on the Partial flag (PARTIAL-DEF), sibling agreement of the editor's completeness predicate (ENTER-AGREE), who-may/shape rule on the ranges handed to parser.errorp (ERROR-AT-POS)",
          "Decides clause 2 (an error is marked partial only when it starts at the end of the input) and that the editor's Enter decision uses that flag or the same end-of-input test; of the grammar-level clause 1 only the structural part is decided: every parse error is reported at the parser's position at the report (or a constant number of bytes before it), never at a saved position or over a node's range.",
          "trusts go/types constant and object resolution"),
- "C06": ("SSA freshness (copy-on-write) dataflow with fresh-return fixpoint (FRESH); API aliasing scan (API-OPAQUE)",
-         "Structural lemma, all instructions: no write in pkg/persistent/vector targets memory reachable from an existing vector, so previously obtained lists cannot change. Agreement with the array model is not decided.",
+ "C06": ("SSA freshness (copy-on-write) dataflow with fresh-return fixpoint (FRESH); API aliasing scan (API-OPAQUE); dominance check of index parameters against the slice's own extent (SLICE-OWN-BOUNDS); interval facts on every index into a fixed-size tree node (NODE-INDEX)",
+         "Structural lemma, all instructions: no write in pkg/persistent/vector targets memory reachable from an existing vector, so previously obtained lists cannot change. Agreement with the array model is not decided. Also decided: a slice rejects out-of-range requests against its own bounds before delegating, and no tree node is indexed by an unmasked value.",
          "trusts go/ssa; cursor (iterator) state is exempt by type"),
  "C07": ("SSA freshness (copy-on-write) dataflow with fresh-return fixpoint (FRESH); API aliasing scan (API-OPAQUE)",
          "Structural lemma, all instructions: no write in pkg/persistent/hashmap targets memory reachable from an existing map, so earlier versions cannot change. Agreement with a reference dictionary is not decided.",
@@ -29,11 +29,11 @@ CLAIMED = {
  "C18": ("who-may-send ownership check on pipeline value channels (SEND-OWN), ordering/pairing on the per-form function's CFG (STOP-ORDER), literal check (SENDERR-NONNIL), def-use check of the exception slice (ALL-EXC), early-exit-before-join pattern (NO-JOIN-ON-EARLY-EXIT), who-may rule on token-limited readers (INPUT-TO-EOF), reachability rule from externalCmd.Call to value-channel operations (EXT-NO-VALUES), type-case check of the reader-gone predicate (GONE-COMBINED), use check on values received from value channels (NIL-IS-A-VALUE)",
          "Structural necessary conditions for the reader-gone/no-deadlock and all-exceptions clauses: value sends always watch sendStop; the reader-gone error is published before sendStop is closed; owned ports are closed and wg.Done runs exactly once per form; every form has its own exception slot; no command joins a band-draining goroutine after it may have stopped reading the other band (two known findings: only-values, only-bytes); running an external command touches no value channel; reader-gone is recognised through error combinators; a received nil is never taken for a closed channel. Delivery order and exactly-once delivery are not decided.",
          "trusts go/ssa; channel provenance is resolved through fields, locals and captured variables, not through arbitrary aliases"),
- "C19": ("dominance checks on the pipeline/chunk CFGs (CANCEL-GATE), must-check-result rule on semaphore.Acquire (ACQUIRE-CHECK), select-shape rule for timer waits (INTERRUPTIBLE-BLOCK), spawn/join pairing for every go statement (JOINED)",
-         "Structural necessary conditions: no pipeline starts without testing for an interrupt, a chunk reports an interrupt before returning normally, a failed Acquire never leads to a started callback or a Release, timer waits are interruptible, every goroutine of pkg/eval and pkg/mods is joined or an audited long-lived helper. Promptness and real schedules are not decided.",
+ "C19": ("dominance checks on the pipeline/chunk CFGs (CANCEL-GATE), must-check-result rule on semaphore.Acquire (ACQUIRE-CHECK), select-shape rule for timer waits (INTERRUPTIBLE-BLOCK), spawn/join pairing for every go statement (JOINED); reachability of stores to shared state after a plain WaitGroup.Done (DONE-LAST)",
+         "Structural necessary conditions: no pipeline starts without testing for an interrupt, a chunk reports an interrupt before returning normally, a failed Acquire never leads to a started callback or a Release, timer waits are interruptible, every goroutine of pkg/eval and pkg/mods is joined or an audited long-lived helper. Promptness and real schedules are not decided. DONE-LAST: nothing the spawner reads is written after Done.",
          "trusts go/ssa; the audit table of deliberately unjoined goroutines in sa/internal/rules/c19.go"),
- "C20": ("WaitGroup discipline on all paths (WG-DISCIPLINE), re-validation of the stop flag after the blocking Acquire (RECHECK), semaphore acquire/release pairing (SEMA-PAIR), lock-dominates-store and no-unchecked-assertion rules on error aggregation (ERR-AGG)",
-         "Structural necessary conditions for peach/run-parallel: Add before go, Done exactly once per worker, Wait before every return, the broken flag re-read after waiting for a slot, slots released exactly once or handed to a worker, shared error written under its mutex, callee errors never asserted unchecked. Output union and exactly-once per input under all schedules are not decided.",
+ "C20": ("WaitGroup discipline on all paths (WG-DISCIPLINE), re-validation of the stop flag after the blocking Acquire (RECHECK), semaphore acquire/release pairing (SEMA-PAIR), lock-dominates-store and no-unchecked-assertion rules on error aggregation (ERR-AGG); reachability of stores to shared state after a plain WaitGroup.Done (DONE-LAST)",
+         "Structural necessary conditions for peach/run-parallel: Add before go, Done exactly once per worker, Wait before every return, the broken flag re-read after waiting for a slot, slots released exactly once or handed to a worker, shared error written under its mutex, callee errors never asserted unchecked. Output union and exactly-once per input under all schedules are not decided. DONE-LAST: a worker's exception is recorded before Done, so it cannot be lost.",
          "trusts go/ssa"),
  "C21": ("defer/dominance and pairing checks on the with/tmp/defer machinery (RESTORE-DEFER, DEFERS-RUN), loop-direction check on the restore loops (REVERSE), guarded-overwrite check on exception combination (BODY-WINS), lock-region check on writes through Frame fields shared by forks (FORK-SHARED), who-may-write rule on compiled ops during execution (OP-READONLY)",
          "Structural necessary conditions on every exit path: with's restores run from a defer registered before the first assignment; set() saves before Var.Set and registers the restore only on success; tmp registers through the frame's defer list; Closure.Call always runs the defer list after the body; both restore loops run last-to-first; a restore/deferred exception replaces the result only when the body's is nil; the defer list shared by the forks of a frame is appended to under a mutex; no exec method of a compiled op writes into the op (re-entered executions share it). Restored values and dynamic nesting are not decided.",
@@ -47,8 +47,8 @@ CLAIMED = {
  "C08": ("sibling agreement between Equal and Hash implementations: receiver-field subset check per type (EH-PAIR), per-case checks inside vals.Hash - zero normalisation, commutative and identical map/field-map combiners (EH-CASE), case-order consistency (EH-ORDER), reachability rule from Hash/Equal to mutable state (KEY-STABLE), dominance of collision-node construction by hash equality (COLLISION-HASH)",
          "Structural necessary condition for 'eq implies same hash', type by type: fields hashed are fields compared, address hashes only with identity equality, +0/-0 hash alike, eq maps and field maps hash alike regardless of iteration order; Hash and Equal read no state a later operation changes (two known findings: a file is identified by its descriptor, which changes on close); a collision node of the hash trie only ever holds keys of one hash. Other properties of the hash map are C07's business.",
          "trusts go/ssa; reflect-based equality (DeepEqual) counts as comparing all fields"),
- "C09": ("agreement of the number-representation sets across the comparison machinery's type switches (NUMSET), detection of lossy conversions on the comparison path (CMP-DOMAINS)",
-         "Two structural necessary conditions of a transitive total preorder: all number switches range over exactly {int, *big.Int, *big.Rat, float64}; no exact operand is ordered through float64 while exact pairs are ordered exactly (known finding on today's tree, documented behaviour). Reflexivity, symmetry, NaN placement and list order are not decided.",
+ "C09": ("agreement of the number-representation sets across the comparison machinery's type switches (NUMSET), detection of lossy conversions on the comparison path (CMP-DOMAINS); use-discipline rule on strings asserted out of compared values (STRING-BYTES)",
+         "Two structural necessary conditions of a transitive total preorder: all number switches range over exactly {int, *big.Int, *big.Rat, float64}; no exact operand is ordered through float64 while exact pairs are ordered exactly (known finding on today's tree, documented behaviour). Reflexivity, symmetry, NaN placement and list order are not decided. STRING-BYTES: compared strings are ordered only by the built-in (bytewise) comparison.",
          "trusts go/ssa"),
  "C10": ("who-may-sort rule (STABLE), dominance of outputs by the comparator-error latch and latch-on-every-failing-exit (LATCH), paired swap check (SWAP-PAIR)",
          "Structural necessary conditions for stability and failure atomicity: only stable sorts are applied, nothing is output unless the comparator reported no error after sorting, every failing comparator exit sets the latch, keys are swapped with values. Sortedness and permutation are not decided.",
@@ -68,11 +68,11 @@ CLAIMED = {
  "C27": ("dominance of the socket removal by the success edge of Listen (REMOVE-OWN), guard check on every exit of the serve loop (SERVE-WHILE-CLIENTS), closed-channel receive rule on select loops (RECV-CLOSED-ONCE), single-unlink rule (UNLINK-ONCE), dominance of the stale-socket status by errors.Is(err, ECONNREFUSED) (STALE-ONLY-REFUSED)",
          "Structural clauses: the daemon removes only a socket it successfully listened on, and only once; it leaves its serve loop only on a signal or when no client is connected, with the connection set touched only by the loop, and the loop cannot spin on a closed channel; a shell declares a socket stale only when connecting was refused. The cross-process activation races as a whole are not decided.",
          "trusts go/ssa"),
- "C31": ("length-lower-bound analysis of every index into lists built from terminal bytes (SEQ-INDEX); constant/provenance evaluation of every read timeout in the terminal reader (TIMEOUT-ALL)",
-         "Structural necessary conditions: ('without crashing') every index or slice operation of the decoder on a list built from terminal bytes is within a length established on every path; ('never blocks past its timeout') every read after the first byte of an event carries a timeout that is a positive package constant or the caller's own; blocking reads are first on every path and outside loops. Decoding correctness is not decided.",
+ "C31": ("length-lower-bound analysis of every index into lists built from terminal bytes (SEQ-INDEX); constant/provenance evaluation of every read timeout in the terminal reader (TIMEOUT-ALL); paired-comparison rule on utf8.RuneError (RUNEERROR-WIDTH)",
+         "Structural necessary conditions: ('without crashing') every index or slice operation of the decoder on a list built from terminal bytes is within a length established on every path; ('never blocks past its timeout') every read after the first byte of an event carries a timeout that is a positive package constant or the caller's own; blocking reads are first on every path and outside loops. Decoding correctness is not decided. RUNEERROR-WIDTH: U+FFFD counts as a decoding failure only together with the reported width.",
          "trusts go/ssa; unix reader only (reader_unix.go)"),
- "C33": ("who-may-construct rule for ui.Text values with a guarded single-segment idiom and an audit table (NF-BUILDER), freshness of what TextBuilder.Text returns (BUILDER-FRESH), bounds-differ guard on returned slices of a text (SLICE-NONEMPTY)",
-         "Structural necessary condition for the normal-form clause inside pkg/ui: a Text is assembled by hand only inside the normalising API (TextBuilder, TextFromSegment, Concat), as a single non-empty segment, or at audited sites that preserve normal form; one known finding (StyleText, pinned by an existing unit test); the builder never hands out its own array; an empty slice of a text is nil. Content equalities and the styledown round trip are not decided.",
+ "C33": ("who-may-construct rule for ui.Text values with a guarded single-segment idiom and an audit table (NF-BUILDER), freshness of what TextBuilder.Text returns (BUILDER-FRESH), bounds-differ guard on returned slices of a text (SLICE-NONEMPTY); who-may-write rule on elements of ui.Text outside pkg/ui (TEXT-ELEM-STORE)",
+         "Structural necessary condition for the normal-form clause inside pkg/ui: a Text is assembled by hand only inside the normalising API (TextBuilder, TextFromSegment, Concat), as a single non-empty segment, or at audited sites that preserve normal form; one known finding (StyleText, pinned by an existing unit test); the builder never hands out its own array; an empty slice of a text is nil. Content equalities and the styledown round trip are not decided. TEXT-ELEM-STORE: no segment of a styled text is replaced in place outside pkg/ui.",
          "trusts go/ssa and the normalising API itself; Text values assembled outside pkg/ui are not examined"),
  "C40": ("ownership pairing for opened descriptors (OPEN-OWNED), must-call rule for returned cleanup functions on all success paths (CLEANUP-CALLED), close-before-overwrite dominance (REPLACE-CLOSES), spawn/join pairing (JOINED)",
          "Structural necessary conditions: every descriptor the evaluator opens is closed in place or recorded as owned by a form whose epilogue closes it; every cleanup function of a capture/pipe/file port is called or handed on on every path; a redirection closes the port it replaces; every goroutine is joined. Descriptor counts and the os.Pipe-failure path are not decided.",
@@ -92,8 +92,8 @@ CLAIMED = {
  "C44": ("guard-dominance check on every value decoded from the wire in pkg/lsp (WIRE-GUARD), goroutine reachability / who-may rule on the documents map (HANDLER-SYNC), def-use agreement of the text used for parsing, completing, storing and converting positions (TEXT-AGREE), def-use and loop-path check of the published diagnostics (DIAG-SOURCE), lock-and-version check on asynchronous publishing (DIAG-ORDER), length-bound check on constant-index accesses (LSP-INDEX)",
          "Structural necessary conditions: decoded pointers, slices, strings, interfaces and numbers are dereferenced, indexed, asserted or used as an index only under a dominating check (the server has no recover); the documents map is touched only by the synchronous handlers; one request uses one text for parsing, completion, storage and every position conversion, and the tree searched belongs to that text; diagnostics are exactly the converted ranges of the unpacked parse errors of that text, one per entry, published under the document's URI, and when published from a goroutine per update the diagnostics of an older text are dropped once newer ones are out; fixed-position accesses to strings and lists have a proven length. The UTF-16/CRLF arithmetic of walkString and its round trip, and the content of hover/completion answers, are not decided.",
          "trusts go/ssa, json.Unmarshal's zero-value behaviour for absent members and jsonrpc2's one-request-at-a-time handler calls"),
- "C29": ("who-may-write and def-use check on the frozen bound of the shared history and guard-dominance check on every database read (FROZEN-UPPER); def-use check of the session entry's sequence number (SESSION-ADD)",
-         "Structural necessary condition of the 'session's view' clause: the bound of the shared history is read from the database once per store, is never rewritten, and bounds every database read of the store and its cursor (commands stored by other sessions after the session started cannot enter the walk); session commands are recorded under the number the shared store returned. Matching, order, de-duplication and the cursor hand-off are not decided.",
+ "C29": ("who-may-write and def-use check on the frozen bound of the shared history and guard-dominance check on every database read (FROZEN-UPPER); def-use check of the session entry's sequence number (SESSION-ADD); direction agreement of inner cursor moves (DIRECTION-PURE); aliasing check on AllCmds results (ALLCMDS-FRESH)",
+         "Structural necessary condition of the 'session's view' clause: the bound of the shared history is read from the database once per store, is never rewritten, and bounds every database read of the store and its cursor (commands stored by other sessions after the session started cannot enter the walk); session commands are recorded under the number the shared store returned. Matching, order, de-duplication and the cursor hand-off are not decided. Also decided: composite cursors move their inner cursors only in their own direction, and no store hands out the slice that holds its history.",
          "trusts go/ssa; the bound field is discovered from the flow of DB.NextCmdSeq's result, not from names"),
 }
 
